@@ -112,12 +112,12 @@ def snap(t, x, base=0, out=None, path=()):
         shape = tuple(int(s) for s in x._shape)
         rec = ["array", int(x._offset) - base, size_of(x), int(x._get_size()), shape, tuple(int(s) for s in x._strides), int(len(x))]
         offs = []
-        for idx in np.ndindex(*shape):
+        for idx in xt.ndindex(shape):
             offs.append(int(x._get_offset(idx)) - base)
         rec.append(tuple(offs))
         out[path] = tuple(rec)
         if t[1][0] not in ("S", "Str"):
-            for idx in np.ndindex(*shape):
+            for idx in xt.ndindex(shape):
                 snap(t[1], x[idx if len(idx) > 1 else idx[0]], base, out, path + (idx,))
         return out
     raise ValueError(t)
@@ -150,7 +150,7 @@ def handles(t, x, path=(), out=None):
     else:
         if t[1][0] not in ("S", "Str"):
             shape = tuple(int(s) for s in x._shape)
-            for idx in np.ndindex(*shape):
+            for idx in xt.ndindex(shape):
                 handles(t[1], x[idx if len(idx) > 1 else idx[0]], path + (idx,), out)
     return out
 
